@@ -384,6 +384,49 @@ func gen(g *hx.Gen) {
 			g.Stat("sealed.crypto-rand-roundtrip")
 		}
 	}
+	// aliasing of array parameters: Precompute with sharedKey == peersPublicKey / == privateKey / all three the
+	// same array; Seal and Open with one array as peer public key and private key
+	for i := 0; i < 60; i++ {
+		priv, pub := r.Bytes(32), pubOf(r.Bytes(32))
+		if r.Chance(1, 5) {
+			pub = pickLow()
+		}
+		switch r.Intn(5) {
+		case 0:
+			g.Emit("precompa alias=pub pub=%s priv=%s oracle.dh=%s", hx.Hex(pub), hx.Hex(priv), dh(priv, pub))
+			g.Stat("alias.precompute.shared==pub")
+		case 1:
+			g.Emit("precompa alias=priv pub=%s priv=%s oracle.dh=%s", hx.Hex(pub), hx.Hex(priv), dh(priv, pub))
+			g.Stat("alias.precompute.shared==priv")
+		case 2:
+			g.Emit("precompa alias=both pub=%s priv=%s oracle.dh=%s", hx.Hex(priv), hx.Hex(priv), dh(priv, priv))
+			g.Stat("alias.precompute.all-same")
+		case 3:
+			msg, nonce := r.Bytes(r.Intn(80)), r.Bytes(24)
+			g.Emit("bxseal pre=0 same=1 pub=%s priv=%s oracle.dh=%s nonce=%s msg=%s out=- cap=0", hx.Hex(priv), hx.Hex(priv), dh(priv, priv), hx.Hex(nonce), hx.Hex(msg))
+			g.Stat("alias.seal.pub==priv")
+		default:
+			msg := r.Bytes(r.Intn(80))
+			var nn [24]byte
+			var kk [32]byte
+			copy(nn[:], r.Bytes(24))
+			copy(kk[:], priv)
+			bx := box.Seal(nil, msg, &nn, &kk, &kk)
+			g.Emit("bxopen pre=0 same=1 pub=%s priv=%s oracle.dh=%s nonce=%s box=%s out=- cap=0", hx.Hex(priv), hx.Hex(priv), dh(priv, priv), hx.Hex(nn[:]), hx.Hex(bx))
+			g.Stat("alias.open.pub==priv")
+		}
+	}
+	// Poly1305 inside secretbox over a ciphertext whose whole-block part is a multiple of 2^16 bytes
+	for _, L := range []int{65536, 65536 + r.Range(1, 17)} {
+		var key [32]byte
+		var nn [24]byte
+		copy(key[:], r.Bytes(32))
+		copy(nn[:], r.Bytes(24))
+		msg := r.Bytes(L)
+		g.Emit("sbseal key=%s nonce=%s msg=%s out=- cap=0", hx.Hex(key[:]), hx.Hex(nn[:]), hx.Hex(msg))
+		g.Emit("sbopen key=%s nonce=%s box=%s out=- cap=0", hx.Hex(key[:]), hx.Hex(nn[:]), hx.Hex(secretbox.Seal(nil, msg, &nn, &key)))
+		g.Stat("secretbox.len=2^16+0..17")
+	}
 	defer func() {
 		g.StatN(fmt.Sprintf("table.low-order-points=%d/%d", len(lowSeen), len(lowOrder)), 1)
 	}()
@@ -423,6 +466,13 @@ func gen(g *hx.Gen) {
 		g.StatN("session.calls", k)
 		g.Stat("session")
 	}
+}
+
+func mutIf(live, want []byte, name string) string {
+	if !bytes.Equal(live, want) {
+		return " mutated=" + name
+	}
+	return ""
 }
 
 func openRes(ret []byte, ok bool) string {
@@ -489,7 +539,26 @@ func execOp(o hx.Op, a *arena) string {
 		box.Precompute(s1, k32("bpub"), k32("apriv"))
 		box.Precompute(s2, k32("apub"), k32("bpriv"))
 		return hx.Hex(s1[:]) + " " + hx.Hex(s2[:])
+	case "precompa": // the out-parameter aliases one of the inputs
+		pub, priv := k32("pub"), k32("priv")
+		a.tr = a.tr[:len(a.tr)-2]
+		switch o.Str("alias") {
+		case "pub":
+			box.Precompute(pub, pub, priv)
+			return hx.Hex(pub[:]) + mutIf(priv[:], o.Hex("priv"), "priv")
+		case "priv":
+			box.Precompute(priv, pub, priv)
+			return hx.Hex(priv[:]) + mutIf(pub[:], o.Hex("pub"), "pub")
+		case "both": // one array is public key, private key and destination
+			box.Precompute(priv, priv, priv)
+			return hx.Hex(priv[:])
+		}
+		return "bad-op"
 	case "bxseal":
+		if o.Str("same") == "1" { // the same array is passed as peer public key and as private key
+			kk := k32("priv")
+			return hx.Hex(box.Seal(out, in("msg"), a.K24("nonce", o.Hex("nonce")), kk, kk))
+		}
 		if o.Int("pre") == 1 {
 			s := a.G32("shared")
 			box.Precompute(s, k32("pub"), k32("priv"))
@@ -497,6 +566,10 @@ func execOp(o hx.Op, a *arena) string {
 		}
 		return hx.Hex(box.Seal(out, in("msg"), a.K24("nonce", o.Hex("nonce")), k32("pub"), k32("priv")))
 	case "bxopen":
+		if o.Str("same") == "1" {
+			kk := k32("priv")
+			return openRes(box.Open(out, in("box"), a.K24("nonce", o.Hex("nonce")), kk, kk))
+		}
 		if o.Int("pre") == 1 {
 			s := a.G32("shared")
 			box.Precompute(s, k32("pub"), k32("priv"))
